@@ -1,9 +1,9 @@
 (* C15 — Range queries and Display agree with membership.  Any decidable total order of versions. *)
 From Coq Require Import Orders List Bool.
-From PG Require Import Model.Text Model.Range Model.Instances Proofs.RangeSimplify.
+From PG Require Import Model.Text Model.Range Model.Instances Proofs.RangeSimplify Proofs.RangeSimplify2.
 
 Module C15 (V : UsualOrderedTypeFull).
-  Module Import P := RangeSimplifyP V.
+  Module Import P := RangeSimplify2P V.
 
   (* contains_many over an ascending sequence equals mapping contains *)
   Theorem range_contains_many_spec :
@@ -11,12 +11,15 @@ Module C15 (V : UsualOrderedTypeFull).
       contains_many r vs = map (contains r) vs.
   Proof. exact contains_many_spec. Qed.
 
-  (* simplify: the three documented special cases (singleton, nothing matched, everything matched).
-     FULL STATEMENT (simplify_spec, see DESIGN.md section 6 C15), not yet proved in Coq and therefore
-     decided by the exhaustive correspondence + oracle only:
-       canonical r -> sorted vs -> let s := simplify r vs in
-         canonical s /\ (forall v, In v vs -> contains s v = contains r v) /\ length s <= length r. *)
-  Theorem range_simplify_spec_partial :
+  (* simplify(versions): canonical, agrees with the original on every listed version, never has more
+     segments; plus the three documented special cases (singleton, nothing matched, everything matched) *)
+  Theorem range_simplify_spec :
+    forall r vs, canonical r -> Sorted.StronglySorted V.le vs ->
+      let s := simplify r vs in
+      canonical s /\ (forall v, In v vs -> contains s v = contains r v) /\ length s <= length r.
+  Proof. exact simplify_spec. Qed.
+
+  Theorem range_simplify_special_cases :
     forall r vs, canonical r -> Sorted.StronglySorted V.le vs ->
       (as_singleton r <> None -> simplify r vs = r)
       /\ (existsb (contains r) vs = false -> simplify r vs = r)
@@ -78,7 +81,8 @@ Example c15_example :
 Proof. vm_compute. repeat split. Qed.
 
 Print Assumptions C15Z.range_contains_many_spec.
-Print Assumptions C15Z.range_simplify_spec_partial.
+Print Assumptions C15Z.range_simplify_spec.
+Print Assumptions C15Z.range_simplify_special_cases.
 Print Assumptions C15Z.range_bounding_range_spec.
 Print Assumptions C15Z.range_as_singleton_spec.
 Print Assumptions C15Z.range_from_range_bounds_spec.
